@@ -546,7 +546,8 @@ class Check(core.PropertyCheck):
         # the generator's state graph is a tree (the token sequence is part of the state): the dumped instance holds
         # every text with up to two atom occurrences; three occurrences are counted exhaustively in the thorough tier
         # and sampled by tlc -simulate in both (scenarios())
-        small = ctx.model_check(self.MODEL, dict(self.model_constants("quick"), MaxAtoms=2), dump=True, invariants=())
+        small = ctx.model_check(self.MODEL, dict(self.model_constants("quick"), NAtoms=2, AtomKind=("unary", "arg"),
+                                                 MaxAtoms=2), dump=True, invariants=(), timeout=900)
         if ctx.quick:
             return [small]
         big = ctx.model_check(self.MODEL, self.model_constants("quick"), dump=False, tag="_big", invariants=(),
@@ -611,9 +612,9 @@ class Check(core.PropertyCheck):
         behs, total = self._complete(models[0].graph, ctx.rng, 500 if ctx.quick else 5000)
         ctx.notes["complete_expressions_in_graph"] = total
         for b in behs:
-            yield self._scenario(rng, b, kinds, "model")
+            yield self._scenario(rng, b, models[0].constants["AtomKind"], "model")
         simc = dict(self.model_constants("thorough"), MaxAtoms=4 if ctx.quick else 5, MaxDepth=2)
-        sims, _ = ctx.simulate(self.MODEL, simc, num=250 if ctx.quick else 3000, depth=40)
+        sims, _ = ctx.simulate(self.MODEL, simc, num=250 if ctx.quick else 3000, depth=40, timeout=1200)
         for b in sims:
             if b[-1][0] == "Finish":
                 yield self._scenario(rng, b, kinds, "simulate")
